@@ -89,96 +89,4 @@ theorem sameStabilizerState_of_spanEq (a b : STab) (ga : a.Good) (gb : b.Good) (
   simp only
   rw [beq_of_rows ca cb sab.n_eq hrows]
 
-/-- **`lc_check` on two stabilizer states is total and right**: for two stabilizer states (commuting, real, independent
-    generators) on the same `n ≥ 1` qubits, the modelled `lc_check` — `state_to_graph` twice, `converter_gate_list`, the total
-    gate list, and (if asked) the validation by canonical forms — returns `(False, [])` or `(True, total)`; no assertion, no
-    warning; and in the second case `total` maps the first state exactly onto the second -/
-theorem lcCheckStates_total (t1 t2 : STab) (hn1 : 0 < t1.n) (hn : t1.n = t2.n) (g1 : t1.Good) (i1 : t1.Indep)
-    (g2 : t2.Good) (i2 : t2.Indep) (validate : Bool) :
-    lcCheckStates t1 t2 validate = .ok (false, []) ∨
-      ∃ total, lcCheckStates t1 t2 validate = .ok (true, total) ∧ STab.SpanEq (t1.runCircuit total) t2 := by
-  obtain ⟨a1, G1, e1⟩ := stateToGraph_complete t1 hn1 g1 i1
-  obtain ⟨a2, G2, e2⟩ := stateToGraph_complete t2 (by omega) g2 i2
-  have hr1 := stateToGraphWith_r _ t1 a1 G1 e1
-  have hr2 := stateToGraphWith_r _ t2 a2 G2 e2
-  obtain ⟨wf1, _, sym1, irr1⟩ := stateToGraphWith_sound S2G.gf2InvF t1 g1.real a1 G1 e1
-  obtain ⟨wf2, _, sym2, irr2⟩ := stateToGraphWith_sound S2G.gf2InvF t2 g2.real a2 G2 e2
-  unfold lcCheckStates
-  rw [e1]
-  simp only []
-  rw [e2]
-  simp only []
-  cases hc : converterGateListR a1 a2 with
-  | error e => exact Or.inl rfl
-  | ok r =>
-    obtain ⟨L, flag⟩ := r
-    right
-    have hL : lcCheckR a1 a2 false = .ok (true, L) := by
-      unfold lcCheckR
-      rw [hc]
-      rfl
-    have key := lc_check_tableaux t1 t2 g1.real g2.real hn a1 a2 G1 G2 e1 e2 false L hL
-    have himg := lc_gates_image a1 a2 (by rw [hr1, hr2, hn]) (by rw [hr1]; exact ⟨sym1, irr1⟩)
-      (by rw [hr2]; exact ⟨sym2, irr2⟩) false L hL
-    have hwf : ∀ g, g ∈ G1 ++ L.map toGate ++ revCirc G2 → g.WF t1.n := by
-      intro g hg
-      rcases List.mem_append.mp hg with h | h
-      · rcases List.mem_append.mp h with h | h
-        · exact wf1 g h
-        · have := himg.wf g h
-          rw [hr1] at this; exact this
-      · have := revCirc_wf t2.n G2 wf2 g h
-        rw [← hn] at this; exact this
-    refine ⟨G1 ++ L.map toGate ++ revCirc G2, ?_, key⟩
-    simp only []
-    cases validate
-    · rfl
-    · have hgood := (tracks_runCircuit t1 g1 _ hwf).good
-      have hind := indep_runCircuit t1 i1 _ hwf
-      have hsame := sameStabilizerState_of_spanEq _ t2 hgood g2 hind i2 key
-      have hsame' : S2G.sameStabilizerState (t1.runCircuit (G1 ++ L.map toGate ++ G2.reverse.map Gate.rev)) t2 = .ok true :=
-        hsame
-      rw [if_pos rfl, hsame']
-      rfl
-
-/-- the same when the second argument of `lc_check` is a graph: total and right -/
-theorem lcCheckStateGraph_total (t1 : STab) (g2 : BMat) (hn1 : 0 < t1.n) (hr : g2.r = t1.n) (hs2 : Simple g2.r g2.f)
-    (g1 : t1.Good) (i1 : t1.Indep) (validate : Bool) :
-    lcCheckStateGraph t1 g2 validate = .ok (false, []) ∨
-      ∃ total, lcCheckStateGraph t1 g2 validate = .ok (true, total) ∧
-        STab.SpanEq (t1.runCircuit total) (graphSTab g2.r g2.f) := by
-  obtain ⟨a1, G1, e1⟩ := stateToGraph_complete t1 hn1 g1 i1
-  have hr1 := stateToGraphWith_r _ t1 a1 G1 e1
-  obtain ⟨wf1, s1, sym1, irr1⟩ := stateToGraphWith_sound S2G.gf2InvF t1 g1.real a1 G1 e1
-  unfold lcCheckStateGraph
-  rw [e1]
-  simp only []
-  cases hc : converterGateListR a1 g2 with
-  | error e => exact Or.inl rfl
-  | ok r =>
-    obtain ⟨L, flag⟩ := r
-    right
-    have hL : lcCheckR a1 g2 false = .ok (true, L) := by
-      unfold lcCheckR
-      rw [hc]
-      rfl
-    have himg := lc_gates_image a1 g2 (by rw [hr1, hr]) (by rw [hr1]; exact ⟨sym1, irr1⟩) hs2 false L hL
-    rw [hr1] at himg
-    have i1' : CircImage t1.n G1 t1 (graphSTab t1.n a1.f) :=
-      (circImage_runCircuit t1 G1 wf1).congr (STab.SpanEq.refl t1) s1
-    have itot := circImage_comp i1' himg
-    have key : STab.SpanEq (t1.runCircuit (G1 ++ L.map toGate)) (graphSTab g2.r g2.f) := by
-      rw [hr]
-      exact circImage_unique (circImage_runCircuit t1 _ itot.wf) itot
-    refine ⟨G1 ++ L.map toGate, ?_, key⟩
-    simp only []
-    cases validate
-    · rfl
-    · have hgood := (tracks_runCircuit t1 g1 _ itot.wf).good
-      have hind := indep_runCircuit t1 i1 _ itot.wf
-      have hgG := graphSTab_good g2.r g2.f hs2.1
-      have hiG := STab.graphSTab_indep g2.r g2.f
-      have hsame := sameStabilizerState_of_spanEq _ _ hgood hgG hind hiG key
-      rw [if_pos rfl, hsame]
-
 end Graphiq.LC
